@@ -40,9 +40,11 @@ VARIABLES
     gone,     \* inv events of calls their client abandoned (their requests may still be processed)
     httpLast, \* <<subscription incarnation, message>> -> status the push endpoint answered last (-1: none)
     delT,     \* subscription incarnation -> instant its deletion completed
+    lightNb,  \* light histories: subscription incarnation -> last reported backlog size (-1: deleted)
+    lightNl,  \* light histories: subscription incarnation -> last reported number of outstanding deliveries
     stats     \* [events |-> validated events, hist |-> histories accepted so far, viol |-> ...]
 
-tvars == <<coreVars, l, skip, hdr, pend, tok, content, ptime, gone, httpLast, delT, stats>>
+tvars == <<coreVars, l, skip, hdr, pend, tok, content, ptime, gone, httpLast, delT, lightNb, lightNl, stats>>
 
 JudgeLate == "clock" \notin DOMAIN hdr.meta \/ hdr.meta.clock = "paused"
 \* Light histories (very large backlogs): the actors report sizes only and the model abstains
@@ -81,9 +83,16 @@ SubStateGuards(post, st) ==
       \* the expiry schedule and the delivery map describe the same set (C02's anchor):
       \* a schedule entry without a delivery resurrects an acknowledged message; a delivery
       \* without a schedule entry is never redelivered
-      G("C02", ExpSetOfLog(st) \subseteq {<<x[1], x[3]>> : x \in LeaseSetOfLog(st)}),
+      \* ... an entry for an id that is not outstanding would resurrect an acknowledged / nacked delivery
+      G("C02", {x[1] : x \in ExpSetOfLog(st)} \subseteq {x[1] : x \in LeaseSetOfLog(st)}),
+      \* ... an entry with another instant than the delivery's deadline ends a live lease at the wrong time
+      G("C03,C04,C05", \A x \in ExpSetOfLog(st) : (\E y \in LeaseSetOfLog(st) : y[1] = x[1]) =>
+                                                   (\E y \in LeaseSetOfLog(st) : y[1] = x[1] /\ y[3] = x[2])),
       G("C01,C04,C05", {<<x[1], x[3]>> : x \in LeaseSetOfLog(st)} \subseteq ExpSetOfLog(st)),
       G("C01", s.st = "live" => \A m \in s.posted : m \in SeqSet(s.queue) \/ m \in LeasedMsgs(s) \/ m \in s.acked),
+      \* an outstanding delivery does not vanish: it stays outstanding, is acknowledged, or is back
+      \* in the backlog for redelivery (C04: "becomes available for redelivery")
+      G("C04", s.st = "live" => \A m \in LeasedMsgs(post) : m \in SeqSet(s.queue) \/ m \in LeasedMsgs(s) \/ m \in s.acked),
       G("C01", SeqSet(s.queue) \cup LeasedMsgs(s) \subseteq s.posted),
       G("C02", s.acked \cap (SeqSet(s.queue) \cup LeasedMsgs(s)) = {}),
       G("C03", \A a, b \in DOMAIN s.lease : a # b => s.lease[a].m # s.lease[b].m),
@@ -517,8 +526,17 @@ EvGuards(e) ==
               G("C16", C16_Attached) }
       [] OTHER -> { G("BIND", FALSE) }
 
+LightNb(si) == IF si \in DOMAIN lightNb THEN lightNb[si] ELSE 0
+LightNl(si) == IF si \in DOMAIN lightNl THEN lightNl[si] ELSE 0
 LightGuards(e) ==
     { G("BIND", e.t >= now) } \cup
+    \* conservation on sizes (C01): nothing is lost or invented by a turn
+    (IF e.k \in {"s.post", "s.pull", "s.ack", "s.mod", "s.expire"} /\ "nb" \in DOMAIN e.st /\ ~e.st.deleted /\ LightNb(e.si) >= 0
+     THEN CASE e.k = "s.post" -> { G("C01", e.st.nb = LightNb(e.si) + Len(e.ids) /\ e.st.nl = LightNl(e.si)) }
+            [] e.k = "s.pull" -> { G("C01", e.st.nb = LightNb(e.si) - e.nout /\ e.st.nl = LightNl(e.si) + e.nout) }
+            [] e.k = "s.ack" -> { G("C01", e.st.nb = LightNb(e.si) /\ e.st.nl <= LightNl(e.si)) }
+            [] OTHER -> { G("C01", e.st.nb + e.st.nl = LightNb(e.si) + LightNl(e.si)) }
+     ELSE {}) \cup
     CASE e.k = "s.pull" -> { G("C15", e.max >= 1 => e.nout <= e.max) }
       [] e.k = "ret" ->
             IF e.c \in DOMAIN pend /\ pend[e.c].e.op = "Pull" /\ e.code = "OK"
@@ -528,11 +546,22 @@ LightGuards(e) ==
       [] e.k = "hang" -> { G("C07", FALSE) }
       [] e.k \in {"panic", "abort"} -> { G("C17", FALSE) }
       [] e.k = "end" -> { G("C07", pend = Empty) }
+      [] e.k = "quiet" ->
+            \* C06 on sizes: at rest no waiting consumer's subscription reports a non-empty backlog
+            { G("C06", \A c \in DOMAIN pend :
+                    LET p == pend[c].e IN
+                    ((p.op = "Pull" /\ ~p.ri) \/ p.op = "StreamOpen") =>
+                        \A si \in SubLookups(Win(c), p.sub) \ {None} : (si \in DOMAIN lightNb => lightNb[si] <= 0)) }
       [] OTHER -> {}
 
 LightApply(e) ==
     /\ now' = e.t
     /\ UNCHANGED <<tmap, smap, T, S, torder, sorder, reg, pubs, tok, content, ptime, gone, httpLast, delT>>
+    /\ lightNb' = IF e.k \in {"s.post", "s.pull", "s.ack", "s.mod", "s.expire", "s.stats"} /\ "nb" \in DOMAIN e.st
+                  THEN Put(lightNb, e.si, IF e.st.deleted THEN None ELSE e.st.nb)
+                  ELSE IF e.k = "s.del1" THEN Put(lightNb, e.si, None) ELSE lightNb
+    /\ lightNl' = IF e.k \in {"s.post", "s.pull", "s.ack", "s.mod", "s.expire", "s.stats"} /\ "nl" \in DOMAIN e.st
+                  THEN Put(lightNl, e.si, e.st.nl) ELSE lightNl
     /\ pend' =
          CASE e.k = "inv" -> Put(pend, e.c, [e |-> e, from |-> l, ctrl |-> <<>>])
            [] e.k \in {"ret", "cancel", "send", "lret"} -> IF e.c \in DOMAIN pend THEN Without(pend, e.c) ELSE pend
@@ -609,7 +638,7 @@ TraceInit ==
     /\ l = 1 /\ skip = FALSE
     /\ hdr = [run |-> "none", meta |-> Empty, cap |-> 16, seed |-> 0]
     /\ pend = Empty /\ tok = Empty /\ content = Empty /\ ptime = Empty /\ gone = {}
-    /\ httpLast = Empty /\ delT = Empty
+    /\ httpLast = Empty /\ delT = Empty /\ lightNb = Empty /\ lightNl = Empty
     /\ stats = [ok |-> 0, bad |-> 0, drift |-> 0]
 
 DoReset(e) ==
@@ -619,7 +648,7 @@ DoReset(e) ==
     /\ skip' = FALSE
     /\ hdr' = e
     /\ pend' = Empty /\ tok' = Empty /\ content' = Empty /\ ptime' = Empty /\ gone' = {}
-    /\ httpLast' = Empty /\ delT' = Empty
+    /\ httpLast' = Empty /\ delT' = Empty /\ lightNb' = Empty /\ lightNl' = Empty
 
 TraceNext ==
     /\ l <= Len(Rec)
@@ -628,11 +657,11 @@ TraceNext ==
        IF e.k = "reset"
        THEN DoReset(e) /\ UNCHANGED stats
        ELSE IF skip
-       THEN UNCHANGED <<coreVars, skip, hdr, pend, tok, content, ptime, gone, httpLast, delT, stats>>
+       THEN UNCHANGED <<coreVars, skip, hdr, pend, tok, content, ptime, gone, httpLast, delT, lightNb, lightNl, stats>>
        ELSE LET gs == IF Light THEN LightGuards(e) ELSE LateGuards(e) \cup EvGuards(e)
                 bad == Fatal(gs)
             IN IF bad = {}
-               THEN /\ IF Light THEN LightApply(e) ELSE EvApply(e)
+               THEN /\ IF Light THEN LightApply(e) ELSE (EvApply(e) /\ UNCHANGED <<lightNb, lightNl>>)
                     /\ skip' = skip
                     /\ hdr' = IF e.k = "mark" /\ e.name = "drained" THEN Put(hdr, "drained", TRUE) ELSE hdr
                     /\ ("DRIFT" \in Failed(gs) =>
@@ -642,7 +671,7 @@ TraceNext ==
                ELSE /\ PrintT(<<"VIOL", ToJson([run |-> hdr.run, i |-> e.i, k |-> e.k, line |-> l, props |-> bad])>>)
                     /\ skip' = TRUE
                     /\ stats' = [stats EXCEPT !.bad = @ + 1]
-                    /\ UNCHANGED <<coreVars, hdr, pend, tok, content, ptime, gone, httpLast, delT>>
+                    /\ UNCHANGED <<coreVars, hdr, pend, tok, content, ptime, gone, httpLast, delT, lightNb, lightNl>>
 
 TraceSpec == TraceInit /\ [][TraceNext]_tvars
 
